@@ -13,6 +13,16 @@ work="$PWD/.work/$lc.$$"
 mkdir -p "$work"
 trap 'rm -rf "$work"' EXIT
 export VERIF_WORK="$work"
+# VERIF_REPO (default /repo) lets the same checks run against a scratch copy of go-mc (used by
+# tools/mutant.sh so that detection demos never touch /repo): the module replacement is redirected
+# through a private -modfile and the overlay generators key their files on $VERIF_REPO.
+export VERIF_REPO="${VERIF_REPO:-/repo}"
+export VERIF_MODFLAG=""
+if [ "$VERIF_REPO" != /repo ]; then
+  sed "s#=> /repo#=> $VERIF_REPO#" go.mod > "$work/go.mod"
+  cp go.sum "$work/go.sum"
+  export VERIF_MODFLAG="-modfile=$work/go.mod"
+fi
 if [ -x "checks/$lc/run.sh" ]; then
   # the check drives its own builds (several binaries / overlays)
   "checks/$lc/run.sh" "$work" "$tier" "${@:3}" 2> "$work/stderr.log"
@@ -25,12 +35,11 @@ if [ -x "checks/$lc/overlay.sh" ]; then
   "checks/$lc/overlay.sh" "$work" > "$work/overlay.log" 2>&1 || { cat "$work/overlay.log" >&2; echo "HARNESS-ERROR: overlay generation failed" >&2; exit 2; }
   overlay=(-overlay "$work/overlay.json")
 fi
-if ! go build -tags verif "${overlay[@]}" -o "$work/h" "./checks/$lc" 2> "$work/build.log"; then
+if ! go build $VERIF_MODFLAG -tags verif "${overlay[@]}" -o "$work/h" "./checks/$lc" 2> "$work/build.log"; then
   cat "$work/build.log" >&2
   echo "HARNESS-ERROR: build failed (a tree that does not compile is out of scope)" >&2
   exit 2
 fi
-export VERIF_WORK="$work"
 "$work/h" -tier "$tier" "${@:3}" 2> "$work/stderr.log"
 rc=$?
 if [ $rc -ge 2 ]; then
